@@ -76,7 +76,17 @@ class Ctx:
         for pred, value in self.assumptions:
             if isinstance(value, tuple) and value[0] == "variant" and pred(subj):
                 return value[1]
+            if isinstance(value, tuple) and value[0] == "variantfn":
+                v = value[1](subj)
+                if v is not None:
+                    return v
         return None
+
+    def assume(self, *entries):
+        """ctx with raw assumption entries (pred, value) added"""
+        c = Ctx(self.body, self.removed, self.T.params, self.T.captures, self.assumptions + tuple(entries))
+        c.level = self.level
+        return c
 
     def _assumed_ok(self, subj):
         return assumed_ok(self.assumptions, subj)
@@ -854,7 +864,7 @@ def inline_walk(prog, ctx, depth=3, _path=()):
                     continue
                 ct = ctx.T.rvalue(rv, bi, si)
                 caps = {n: v for _, n, v in ct[2]}
-                sub = ctx.sub(cb, captures=caps)
+                sub = ctx.sub(cb, params=_closure_elem_params(ctx, ct), captures=caps)
                 yield from inline_walk(prog, sub, depth - 1, _path + ((b.key, bi, "closure"),))
         t = blk["term"]
         if t["k"] != "call":
@@ -871,6 +881,19 @@ def inline_walk(prog, ctx, depth=3, _path=()):
         params = {i + 1: ctx.T.operand(a, bi, idx) for i, a in enumerate(t["args"])}
         sub = ctx.sub(cb, params=params)
         yield from inline_walk(prog, sub, depth - 1, _path + ((b.key, bi, "call"),))
+
+
+ELEM_CLOSURE_METHODS = {"for_each", "try_for_each", "map", "filter", "any", "all", "find", "position", "filter_map", "flat_map", "inspect", "take_while", "skip_while", "find_map"}
+
+
+def _closure_elem_params(ctx, cterm):
+    """if the closure is handed to an iterator method whose closure receives the elements
+    (for_each, try_for_each, map, filter, any, ...): bind its parameter to `next(<receiver>)?`,
+    the same term a `for x in receiver` loop reads — loop form and closure form then look alike."""
+    for bi, t, args in call_sites(ctx, lambda n: "Iterator::" in n and n.split("::")[-1] in ELEM_CLOSURE_METHODS):
+        if len(args) == 2 and args[1][0] == "closure" and args[1][1] == cterm[1]:
+            return {2: ("payload", ("call", "std::iter::Iterator::next", (args[0],)), "Ok/Some")}
+    return None
 
 
 def storage_ops_deep(prog, ctx, depth=3, raw=False):
@@ -1048,7 +1071,17 @@ def resolve_terms(prog, t, depth=3, _memo=None, assumptions=()):
             args = tuple(rec(a) for a in t[2])
             cb = _callee_body(prog, t)
             out = None
-            if assumptions and t[1] in _UNWRAP_OR and args:
+            if assumptions and t[1] == "std::option::Option::map" and len(args) == 2:
+                # Option::map of a value whose variant the world fixes
+                a = assumed_ok(assumptions, args[0])
+                if a is False:
+                    out = ("agg", "std::option::Option", "None", ())
+                elif a is True and args[1][0] == "closure" and prog.body(args[1][1]) is not None:
+                    cb2 = prog.body(args[1][1])
+                    caps = {n: v for _, n, v in args[1][2]}
+                    c2 = Ctx(cb2, params={2: ok_payload(args[0])}, captures=caps, assumptions=assumptions).settle()
+                    out = ("agg", "std::option::Option", "Some", (("fld", "0", rec(c2.T.return_term(), depth - 1)),))
+            if out is None and assumptions and t[1] in _UNWRAP_OR and args:
                 a = assumed_ok(assumptions, args[0])
                 if a is True:
                     out = ok_payload(args[0])
